@@ -39,7 +39,22 @@ type LNode struct {
 	St      sm.State
 	Ss      task.Status
 	LeafIdx int
-	Pruned  int // listed aggregating children predicted to be pruned away (empty)
+	Pruned  int // listed children predicted to be pruned away (disabled or empty)
+
+	OffKids     int // listed children that are disabled
+	OffCritKids int // ... of which critical (a critical leaf, or containing one)
+}
+
+func specHasCrit(s *Spec) bool {
+	if s.Kind == "task" || s.Kind == "call" {
+		return s.Crit
+	}
+	for _, k := range s.Kids {
+		if specHasCrit(k) {
+			return true
+		}
+	}
+	return false
 }
 
 func (l *LNode) isLeaf() bool { return l.Kind == "task" || l.Kind == "call" }
@@ -54,6 +69,15 @@ func expand(root *Spec) *LNode {
 
 func expandKids(n *LNode, s *Spec) {
 	for _, k := range s.Kids {
+		if k.Off != 0 {
+			// disabled: the role and everything below it is absent
+			n.Pruned++
+			n.OffKids++
+			if specHasCrit(k) {
+				n.OffCritKids++
+			}
+			continue
+		}
 		cnt := 1
 		if k.Iter >= 0 {
 			cnt = k.Iter
